@@ -48,6 +48,12 @@ PRODUCERS = [
     ("string_into_boxed_str", "{{ let mut s = BumpString::new_in(&*{h}); s.push('a'); s.into_boxed_str() }}", "boxstr"),
     ("string_into_str", "{{ let mut s = BumpString::new_in(&*{h}); s.push('a'); s.into_str() }}", "ref"),
     ("stats", "{h}.stats()", "stats"),
+    ("any_stats_from_stats", "bump_scope::stats::AnyStats::from({h}.stats())", "anystats"),
+    ("any_chunk_from_chunk", "bump_scope::stats::AnyChunk::from({h}.stats().current_chunk().unwrap())", "anychunk"),
+    ("any_prev_iter_from", "bump_scope::stats::AnyChunkPrevIter::from({h}.stats().current_chunk().unwrap().iter_prev())", "anyiter"),
+    ("any_next_iter_from", "bump_scope::stats::AnyChunkNextIter::from({h}.stats().current_chunk().unwrap().iter_next())", "anyiter"),
+    ("stats_current_chunk", "{h}.stats().current_chunk()", "chunk"),
+    ("stats_small_to_big", "{h}.stats().small_to_big()", "chunkiter"),
     ("allocator", "{h}.allocator()", "ref"),
 ]
 # producers that need exclusive access to the handle
@@ -255,6 +261,34 @@ TRAIT_WITNESSES = [
      "let b: Bump = Bump::new();\nlet x = b.alloc(1u32);\nneed_send(x);"),
     ("pool guard is not Send across threads when the allocator is !Send", "let p: BumpPool<NotSend> = BumpPool::new_in(NotSend::default());\nlet g = p.get();\nneed_send(g);",
      "let p: BumpPool<IsSend> = BumpPool::new_in(IsSend);\nlet g = p.get();\ntouch(&g);"),
+]
+
+# ---------------------------------------------------------------------------------------------------------------
+# owner-overwrite witnesses: an owned BumpScope<'x> value must not be storable into the storage of an *owning* arena
+# (reachable as &mut BumpScope through as_mut_scope / DerefMut of guards): afterwards two owners free the same chunks
+# or memory that is still borrowed belongs to another arena.  (name, witness body, twin body)
+OWNER_WITNESSES = [
+    ("by_value copy swapped into an owning Bump through as_mut_scope",
+     "let mut bump1: Bump = Bump::new();\nlet mut bump2: Bump = Bump::new();\n{\n    let s2 = bump2.as_mut_scope();\n    let mut copy = s2.by_value();\n    core::mem::swap(bump1.as_mut_scope(), &mut copy);\n}\ntouch(&bump1);",
+     "let mut bump1: Bump = Bump::new();\nlet mut bump2: Bump = Bump::new();\n{\n    let s2 = bump2.as_mut_scope();\n    let mut copy = s2.by_value();\n    touch(bump1.as_mut_scope()); touch(&mut copy);\n}\ntouch(&bump1);"),
+    ("scope of a scope guard swapped into an owning Bump through as_mut_scope",
+     "let mut bump1: Bump = Bump::new();\nlet mut bump2: Bump = Bump::new();\n{\n    let mut guard = bump2.scope_guard();\n    let mut scope = guard.scope();\n    core::mem::swap(bump1.as_mut_scope(), &mut scope);\n}\ntouch(&bump1);",
+     "let mut bump1: Bump = Bump::new();\nlet mut bump2: Bump = Bump::new();\n{\n    let mut guard = bump2.scope_guard();\n    let mut scope = guard.scope();\n    touch(bump1.as_mut_scope()); touch(&mut scope);\n}\ntouch(&bump1);"),
+    ("scoped closure parameter swapped into an owning Bump through as_mut_scope",
+     "let mut bump1: Bump = Bump::new();\nlet mut bump2: Bump = Bump::new();\nbump2.scoped(|mut scope| {\n    core::mem::swap(bump1.as_mut_scope(), &mut scope);\n});\ntouch(&bump1);",
+     "let mut bump1: Bump = Bump::new();\nlet mut bump2: Bump = Bump::new();\nbump2.scoped(|mut scope| {\n    touch(bump1.as_mut_scope()); touch(&mut scope);\n});\ntouch(&bump1);"),
+    ("claim guard's scope swapped with an owning Bump while memory of the claimed arena is borrowed",
+     "let mut bump1: Bump = Bump::new();\nlet bump2: Bump = Bump::new();\nlet x = bump2.alloc_str(\"a\");\n{\n    let mut g = bump2.claim();\n    core::mem::swap(bump1.as_mut_scope(), &mut *g);\n}\ndrop(bump1);\ntouch(&x);",
+     "let mut bump1: Bump = Bump::new();\nlet bump2: Bump = Bump::new();\nlet x = bump2.alloc_str(\"a\");\n{\n    let mut g = bump2.claim();\n    touch(bump1.as_mut_scope()); touch(&mut *g);\n}\ndrop(bump1);\ntouch(&x);"),
+    ("arena of a pool guard overwritten with a foreign scope through as_mut_scope",
+     "let pool: BumpPool = BumpPool::new();\nlet mut bump2: Bump = Bump::new();\n{\n    let mut g1 = pool.get();\n    let mut guard = bump2.scope_guard();\n    let mut scope = guard.scope();\n    core::mem::swap(g1.as_mut_scope(), &mut scope);\n}\ntouch(&pool);",
+     "let pool: BumpPool = BumpPool::new();\nlet mut bump2: Bump = Bump::new();\n{\n    let mut g1 = pool.get();\n    let mut guard = bump2.scope_guard();\n    let mut scope = guard.scope();\n    touch(g1.as_mut_scope()); touch(&mut scope);\n}\ntouch(&pool);"),
+    ("scoped closure parameter swapped with the scope of an inner arena's guard",
+     "let mut bump1: Bump = Bump::new();\nbump1.scoped(|mut outer| {\n    let mut bump2: Bump = Bump::new();\n    let mut guard = bump2.scope_guard();\n    let mut scope = guard.scope();\n    core::mem::swap(&mut outer, &mut scope);\n});",
+     "let mut bump1: Bump = Bump::new();\nbump1.scoped(|mut outer| {\n    let mut bump2: Bump = Bump::new();\n    let mut guard = bump2.scope_guard();\n    let mut scope = guard.scope();\n    touch(&mut outer); touch(&mut scope);\n});"),
+    ("claimant of a claim guard swapped with the scope of another arena's guard",
+     "let bump2: Bump = Bump::new();\nlet mut bump3: Bump = Bump::new();\n{\n    let mut guard = bump3.scope_guard();\n    let mut scope = guard.scope();\n    let mut g = bump2.claim();\n    core::mem::swap(&mut *g, &mut scope);\n}\ntouch(&bump2);",
+     "let bump2: Bump = Bump::new();\nlet mut bump3: Bump = Bump::new();\n{\n    let mut guard = bump3.scope_guard();\n    let mut scope = guard.scope();\n    let mut g = bump2.claim();\n    touch(&mut *g); touch(&mut scope);\n}\ntouch(&bump2);"),
 ]
 
 S = "<BumpSettings as BumpAllocatorSettings>"
